@@ -299,9 +299,10 @@ func (c *Ctx) BitStorageFixSibling() []core.Ob {
 		for _, b := range fn.Blocks {
 			var dsts []map[string]string
 			switch {
-			case zb != nil && (b == zb || (len(zb.Preds) == 1 && zb.Dominates(b))):
+			// (a successor with a second predecessor is where the two cases meet again, not one of them)
+			case zb != nil && len(zb.Preds) == 1 && (b == zb || zb.Dominates(b)):
 				dsts = []map[string]string{zero}
-			case nzb != nil && (b == nzb || (len(nzb.Preds) == 1 && nzb.Dominates(b))):
+			case nzb != nil && len(nzb.Preds) == 1 && (b == nzb || nzb.Dominates(b)):
 				dsts = []map[string]string{nonzero}
 			case zb != nil && len(zb.Preds) == 1 && len(nzb.Preds) != 1:
 				// "if bits == 0 { ...; return }; rest": the rest runs only for bits != 0 when the zero branch leaves
